@@ -1,12 +1,20 @@
 #!/usr/bin/env python3
-"""Developer tool: compare a nextest log's failing tests with BASELINE.json always_fail."""
+"""Developer tool: compare a nextest log's failing tests with BASELINE.json always_fail / stable_pass."""
 import json, re, sys
 b = json.load(open('/root/.vp/BASELINE.json'))
-af = set(x.split('::', 2)[-1] if False else x for x in b['always_fail'])
+af = set(b['always_fail'])
+sp = set(b['stable_pass'])
 log = open(sys.argv[1]).read()
 fails = set()
-for m in re.finditer(r'^\s+FAIL \[[^\]]*\] \(\s*\d+/\d+\) (\S+)::(\S+) (.*)$', log, re.M):
-    fails.add('%s::%s::%s' % (m.group(1), m.group(2), m.group(3)))
+for m in re.finditer(r'^\s+(?:TRY \d+ )?FAIL \[[^\]]*\] \(\s*\d+/\d+\) (\S+) (.*)$', log, re.M):
+    first, rest = m.group(1), m.group(2)
+    if '::' in first:            # "crate::binary testname"
+        name = '%s::%s' % (first, rest)
+    else:                        # "crate module::path::test"
+        name = '%s::%s' % (first, rest)
+    fails.add(name)
+summ = re.findall(r'Summary \[[^\]]*\] (.*)', log)
+print('summary:', summ[-1] if summ else None)
 print('failing now: %d  always_fail: %d' % (len(fails), len(af)))
-print('new failures:', sorted(fails - af))
+print('new failures (in stable_pass or unknown):', sorted(f for f in fails if f not in af))
 print('no longer failing:', sorted(af - fails))
